@@ -20,6 +20,7 @@ import traceback
 
 ROOT = os.path.dirname(os.path.dirname(os.path.abspath(__file__)))
 sys.path.insert(0, ROOT)
+OUT = os.environ.get("VERIF_OUT", ROOT)      # where evidence/ and replays/ are written (scratch dir for mutant runs)
 
 from pyvc import vc  # noqa: E402
 
@@ -164,7 +165,7 @@ def main(argv=None):
             else:
                 unknowns.append((o, r))
 
-    os.makedirs(os.path.join(ROOT, "replays", prop), exist_ok=True)
+    os.makedirs(os.path.join(OUT, "replays", prop), exist_ok=True)
     exit_code = 0
     lines = []
     for fid, obs in sorted(known_hits.items()):
@@ -178,7 +179,7 @@ def main(argv=None):
                "kind": o["kind"], "model": o.get("model"), "goal": o.get("goal"), "replay": o.get("replay"),
                "solver": {"status": o["status"], "reason": o.get("reason"), "ms": o["ms"]},
                "replayed_on_real_code": replayed}
-        json.dump(rec, open(os.path.join(ROOT, path), "w"), indent=1, default=str)
+        json.dump(rec, open(os.path.join(OUT, path), "w"), indent=1, default=str)
         if replayed:
             lines.append(f"VIOLATION property={prop} replay={path}")
             exit_code = 1
@@ -194,7 +195,7 @@ def main(argv=None):
             rec = {"property": prop, "obligation": o["name"], "contract": r["contract"], "cfg": r["cfg"], "clause": o["clause"],
                    "kind": o["kind"], "model": None, "goal": o.get("goal"),
                    "solver": {"status": o["status"], "reason": o.get("reason"), "ms": o["ms"]}, "replayed_on_real_code": False}
-            json.dump(rec, open(os.path.join(ROOT, path), "w"), indent=1, default=str)
+            json.dump(rec, open(os.path.join(OUT, path), "w"), indent=1, default=str)
             lines.append(f"VIOLATION property={prop} replay={path} no-failing-input-found")
             exit_code = 1
         else:
@@ -260,8 +261,8 @@ def main(argv=None):
         },
         "assumptions": assumptions(stubs),
     }
-    os.makedirs(os.path.join(ROOT, "evidence"), exist_ok=True)
-    json.dump(ev, open(os.path.join(ROOT, "evidence", f"{prop}.json"), "w"), indent=1, default=str)
+    os.makedirs(os.path.join(OUT, "evidence"), exist_ok=True)
+    json.dump(ev, open(os.path.join(OUT, "evidence", f"{prop}.json"), "w"), indent=1, default=str)
 
     if args.update_baseline:
         if exit_code == 0:
@@ -307,7 +308,7 @@ def assumptions(stubs):
 
 
 def do_replay(prop, path):
-    rec = json.load(open(path if os.path.isabs(path) else os.path.join(ROOT, path)))
+    rec = json.load(open(path if os.path.isabs(path) else os.path.join(OUT, path)))
     c = vc.REGISTRY[rec["contract"]]
     if rec.get("model") is None:
         print(f"replay {path}: no failing input was found by the solver; obligation {rec['obligation']}")
